@@ -40,8 +40,8 @@ import (
 const (
 	specID     = "LAV1"
 	epochSize  = 10
-	blockDist  = 20 // GetEpochSizeMultipliedByRecommendedEpochNumToCollectPayment (epoch size × 2)
-	startEpoch = 30 // relays of epoch 20 are still valid (20 > 30-20), so proofs of both epochs can arrive from the start
+	blockDist  = 20                                                   // GetEpochSizeMultipliedByRecommendedEpochNumToCollectPayment (epoch size × 2)
+	startEpoch = 30                                                   // relays of epoch 20 are still valid (20 > 30-20), so proofs of both epochs can arrive from the start
 	maxSubs    = 1 + rewardserver.MaxPaymentRequestsRetiresForSession // property: once plus at most the configured retries
 	giveUp     = rewardserver.MaxPaymentRequestsRetiresForSession     // failed submissions after which dropping a proof is by design
 	hugeSnap   = 1 << 30                                              // snapshot threshold / timeout out of reach
@@ -233,7 +233,7 @@ type txMock struct {
 	calls      []txCall
 	viols      []ev.Violation
 	claimEpoch uint64
-	baseG      int  // number of goroutines right before the claim
+	baseG      int // number of goroutines right before the claim
 }
 
 func (m *txMock) GetEpochSizeMultipliedByRecommendedEpochNumToCollectPayment(context.Context) (uint64, error) {
@@ -913,6 +913,11 @@ func (s *scen) exec(op int, probe bool) result {
 		if !retryAlive && (o.retryFirst || o.okNew != o.okRetry) {
 			return result{obs: "variant-needs-two-claim-goroutines"}
 		}
+		if o.desc && o.okNew {
+			// a successful new claim leaves the same state whatever the order of its proofs (every proof only has
+			// its retry entry removed): the order is neither a separate operation nor enforced
+			return result{obs: "variant-needs-a-failing-new-claim"}
+		}
 		if o.desc {
 			perSession := map[uint64]int{}
 			twice := false
@@ -979,7 +984,7 @@ func (s *scen) exec(op int, probe bool) result {
 			return result{mutated: true, obs: "variant-needs-same-session-proofs-in-one-claim"}
 		}
 		for _, g := range groups {
-			for i := 1; i < len(g); i++ {
+			for i := 1; i < len(g) && !o.okNew; i++ {
 				if (!o.desc && g[i-1] >= g[i]) || (o.desc && g[i-1] <= g[i]) {
 					return result{mutated: true, orderMiss: true}
 				}
@@ -1194,17 +1199,17 @@ func init() {
 		}
 		rest := ", snapshot, paymentEvent per proof identity, advanceChainMemory (earliest 20->30->40), crash+restart; plus a restart at every prefix of the DB-operation log"
 		parts := []part{
-			{"c29/rewards-cu2", "events", 5, 70 * time.Second, fmt.Sprintf(boundText, "7|8", "10|20", rest)},
-			{"c29/retries", "retries", 8, 40 * time.Second, fmt.Sprintf(boundText, "7", "10", "")},
+			{"c29/retries", "retries", 8, 25 * time.Second, fmt.Sprintf(boundText, "7", "10", "")},
+			{"c29/rewards-cu2", "events", 5, 55 * time.Second, fmt.Sprintf(boundText, "7|8", "10|20", rest)},
 		}
 		if ev.Tier() == "thorough" {
 			parts = []part{
+				{"c29/retries", "retries", 16, 3 * time.Minute, fmt.Sprintf(boundText, "7", "10", "")},
 				{"c29/rewards", "events", 6, 11 * time.Minute, fmt.Sprintf(boundText, "7|8", "10|20|30", rest)},
-				{"c29/retries", "retries", 10, 3 * time.Minute, fmt.Sprintf(boundText, "7", "10", "")},
 			}
 		}
 		if d, err := strconv.Atoi(os.Getenv("VERIF_C29_DEPTH")); err == nil && d > 0 {
-			parts[0].depth = d // development override
+			parts[1].depth = d // development override
 		}
 		exhaustive := true
 		var crashPoints, opsWithDBWrites int64
@@ -1232,7 +1237,7 @@ func init() {
 		run.Set("bound", strings.Join(bounds, " ;; "))
 		run.Assume("SendNewProof is one critical section under the server lock, so concurrent arrivals are equivalent to the sequential orders that are enumerated")
 		run.Assume("a proof whose own submissions failed MaxPaymentRequestsRetiresForSession times may be dropped for good (give-up by design); proofs removed by a payment event or whose epoch left chain memory need not be restored")
-		run.Assume("the two claim goroutines of sendRewardsClaim interact only through updatePaymentRequestAttempt (one critical section each), so the two serial orders enumerated cover their interleavings")
+		run.Assume("the two claim goroutines of sendRewardsClaim (new proofs / retried proofs) are run one after the other in both orders (the second TxRelayPayment is released only after the first goroutine has exited); finer interleavings inside the goroutines are not explored - in particular both goroutines assign the enclosing function's err variable between their TxRelayPayment call and its check")
 		run.Assume("a DB BatchSave / DeletePrefix is atomic (badger transaction); crash points lie between DB operations")
 		run.Assume("same-session-id proofs inside one claim are enumerated in two orders (ascending / descending by (epoch, consumer)), not in all permutations of groups of 3 or 4")
 		run.Assume("a proof of epoch e arrives while e <= current epoch < e + blockDistance + epochSize (a relay served just before an epoch update may deliver its proof after it)")
